@@ -106,5 +106,8 @@ def run(cx, out):
         # premise of the sequence shapes: only the 12 primitives take the bulk path (C01 R01.3)
         from . import c01
         c01.check_type_info(out, facts)
+    # premise: "the bytes A encodes to" is well defined: all encoding entry points of an impl agree (C07 R07.1)
+    from . import shared
+    shared.premises(cx, out, {'c07': {'R07.1'}})
     from . import positive
     positive.check(cx, out, 'C16')
